@@ -1,7 +1,264 @@
-import PersimVerif.Model.MGH
-namespace PersimVerif.C05
-open PersimVerif.MGH
+import PersimVerif.Lemmas.MGHUb
+import PersimVerif.Lemmas.MGHLbSound
 
-theorem smoke : findLb (wrapMul 8) (wrapMul 8) [[0,1,2],[1,0,1],[2,1,0]] [[0,1,2,1],[1,0,1,2],[2,1,0,1],[1,2,1,0]] = 1 := by decide
+/-!
+# C05 — the mGH estimates always bracket the true modified Gromov–Hausdorff distance
+
+Model: `PersimVerif.MGH` (`Model/MGH.lean`, a transcription of `persim/gromov_hausdorff.py` from
+`estimate` downwards, the NumPy generator an explicit input).  Specification: `PersimVerif.MGHSpec`
+(`Spec/MGH.lean`): `dis`, `minDis`, `mGH2 = max (min_f dis f) (min_g dis g)`, `mGH = mGH2 / 2`.
+
+Every theorem is for distance matrices of every size (`DistMat D n`: square, symmetric, zero exactly
+on the diagonal — what BFS on a connected simple graph yields), every value of the wrapped key
+product `keyMul`, every list of permutations and first images, hence every state of the random
+generator and every `mapping_sample_size_order`.
+-/
+namespace PersimVerif.C05
+open PersimVerif.MGH PersimVerif.MGHSpec
+
+/-! ### a decidable check of `DistMat`, for the concrete examples -/
+
+/-- executable check of `DistMat` -/
+def distMatB (D : Mat) (n : ℕ) : Bool :=
+  D.length == n && D.all (fun r => r.length == n) &&
+    (List.range n).all fun i => (List.range n).all fun j =>
+      ent D i j == ent D j i && ((ent D i j == 0) == (i == j))
+
+private theorem distMat_of_check {D : Mat} {n : ℕ} (h : distMatB D n = true) : DistMat D n := by
+  unfold distMatB at h
+  simp only [Bool.and_eq_true, beq_iff_eq, List.all_eq_true, List.mem_range] at h
+  obtain ⟨⟨h1, h2⟩, h3⟩ := h
+  refine ⟨h1, h2, fun i j hi hj => (h3 i hi j hj).1, fun i j hi hj => ?_⟩
+  have := (h3 i hi j hj).2
+  by_cases e : i = j
+  · simp [e] at this ⊢; simpa [e] using this
+  · simp [e] at this ⊢; exact this
+
+/-- path on 3 vertices, 4-cycle, triangle, 4-clique (shortest-path metrics) -/
+def P3 : Mat := [[0, 1, 2], [1, 0, 1], [2, 1, 0]]
+def C4 : Mat := [[0, 1, 2, 1], [1, 0, 1, 2], [2, 1, 0, 1], [1, 2, 1, 0]]
+def K3 : Mat := [[0, 1, 1], [1, 0, 1], [1, 1, 0]]
+def K4 : Mat := [[0, 1, 1, 1], [1, 0, 1, 1], [1, 1, 0, 1], [1, 1, 1, 0]]
+/-- path on 5 vertices and the star with 4 leaves: the curvature/assignment step is what separates them -/
+def P5 : Mat := [[0, 1, 2, 3, 4], [1, 0, 1, 2, 3], [2, 1, 0, 1, 2], [3, 2, 1, 0, 1], [4, 3, 2, 1, 0]]
+def S5 : Mat := [[0, 1, 1, 1, 1], [1, 0, 2, 2, 2], [1, 2, 0, 2, 2], [1, 2, 2, 0, 2], [1, 2, 2, 2, 0]]
+
+theorem P3_dist : DistMat P3 3 := distMat_of_check (by decide)
+theorem C4_dist : DistMat C4 4 := distMat_of_check (by decide)
+theorem K3_dist : DistMat K3 3 := distMat_of_check (by decide)
+theorem K4_dist : DistMat K4 4 := distMat_of_check (by decide)
+theorem P5_dist : DistMat P5 5 := distMat_of_check (by decide)
+theorem S5_dist : DistMat S5 5 := distMat_of_check (by decide)
+
+section
+variable {DX DY : Mat} {n m : ℕ} [NeZero n] [NeZero m]
+
+/-! ### lower bound -/
+
+/-- **trivial bound**: `|diam X − diam Y| ≤ 2·mGH`, and spaces of different size are at `2·mGH ≥ 1`
+    (the larger one has two points at distance ≥ 1 that some map must merge). -/
+theorem trivial_lb_sound (hX : DistMat DX n) (hY : DistMat DY m) :
+    trivialLb DX DY ≤ mGH2 (matFn DX n) (matFn DY m) :=
+  trivialLb_le_mGH2 hX hY
+
+example : trivialLb P3 C4 = 1 ∧ trivialLb K3 K4 = 1 ∧ trivialLb P5 S5 = 2 := by decide
+
+/-- **the curvature loop keeps a principal submatrix**: whatever the sort keys (`keyMul` arbitrary)
+    and `diam` are, the kept indices are a sub-list of `0..n-1` (distinct, increasing) and their
+    pairwise distances are all `≥ d`. -/
+theorem curvature_is_principal (keyMul : ℕ → ℕ → ℤ) (D : Mat) (diam d : ℕ) :
+    (largestBoundedCurvatureIdx keyMul D diam d).Sublist (List.range D.length) ∧
+      (largestBoundedCurvatureIdx keyMul D diam d).Pairwise fun i j => d ≤ ent D i j :=
+  largestBoundedCurvatureIdx_spec keyMul D diam d
+
+example : largestBoundedCurvatureIdx (wrapMul 8) P5 4 2 = [0, 4] ∧
+    largestBoundedCurvatureIdx (wrapMul 8) S5 2 2 = [1, 2, 3, 4] := by decide
+
+omit [NeZero n] [NeZero m] in
+/-- **Theorem A**: if more than `|Y|` points of `X` are pairwise at distance `≥ d`, every map
+    `X → Y` has distortion `≥ d`. -/
+theorem thmA (hY : DistMat DY m) {S : List ℕ} {d : ℕ} (hS : S.Sublist (List.range n))
+    (hP : S.Pairwise fun i j => d ≤ ent DX i j) (hlen : m < S.length) :
+    ∀ f : Fin n → Fin m, d ≤ dis (matFn DX n) (matFn DY m) f :=
+  thmA_core hY hS hP hlen
+
+/-- four pairwise distinct points of `K4` against the three points of `K3` (`d = 1`) -/
+example : ([0, 1, 2, 3] : List ℕ).Sublist (List.range 4) ∧
+    ([0, 1, 2, 3] : List ℕ).Pairwise (fun i j => 1 ≤ ent K4 i j) ∧ 3 < [0, 1, 2, 3].length := by
+  decide
+
+omit [NeZero n] [NeZero m] in
+/-- **Theorem B, one row**: let `S` be points of `X` pairwise at distance `≥ d` and `i ∈ S`.  If for
+    every row `j` of `DY` there is *no* injective assignment of the off-diagonal entries of row `i`
+    of the curvature to off-diagonal entries of row `j` of `DY` with all differences `< d`, then
+    every map `X → Y` has distortion `≥ d`. -/
+theorem thmB_row (hY : DistMat DY m) {S : List ℕ} {d : ℕ}
+    (hP : S.Pairwise fun i j => d ≤ ent DX i j) {i : Fin n} (hi : i.val ∈ S)
+    (hno : ∀ j : Fin m, ¬ Assignable (ι := {s : Fin n // s.val ∈ S ∧ s ≠ i}) (κ := {y : Fin m // y ≠ j})
+      (fun s => ent DX i s.val) (fun y => ent DY j y.val) d) :
+    ∀ f : Fin n → Fin m, d ≤ dis (matFn DX n) (matFn DY m) f := by
+  intro f
+  by_contra h
+  exact hno (f i) (thmB_core hY hP hi (Nat.lt_of_not_le h))
+
+/-- the full statement of the lower-bound theorem -/
+def FindLbSound : Prop :=
+  ∀ {DX DY : Mat} {n m : ℕ} [NeZero n] [NeZero m], DistMat DX n → DistMat DY m →
+    ∀ kmX kmY : ℕ → ℕ → ℤ, findLb kmX kmY DX DY ≤ mGH2 (matFn DX n) (matFn DY m)
+
+/-- **`find_lb` is sound**, given [P2] completeness of the greedy feasibility check
+    (`GreedyComplete`: `checkAssignmentFeasibility = false` ⇒ no injective assignment). -/
+theorem find_lb_sound_partial (hG : GreedyComplete) : FindLbSound :=
+  fun hX hY kmX kmY => findLb_le_mGH2 hG hX hY kmX kmY
+
+example : findLb (wrapMul 8) (wrapMul 8) P3 C4 = 1 ∧ findLb (wrapMul 8) (wrapMul 8) K3 K4 = 1 ∧
+    findLb (wrapMul 8) (wrapMul 8) P5 S5 = 2 := by decide
+
+/-! ### upper bound -/
+
+omit [NeZero m] in
+/-- **`construct_mapping` returns an actual map and its exact distortion**: for a permutation `pi`
+    of the points of `X` and a valid first image, the returned pairs are the graph of a total map
+    `f : X → Y` (listed in the order of `pi`) and the returned number is `dis f`. -/
+theorem mapping_distortion_exact (hX : DistMat DX n) (hY : DistMat DY m) {pi : List ℕ} {y0 : ℕ}
+    (hpi : pi.Perm (List.range n)) (hy0 : y0 < m) :
+    ∃ mapped dist, constructMapping DX DY pi y0 = .ok (mapped, dist) ∧ mapped.map Prod.fst = pi ∧
+      ∃ f : Fin n → Fin m, (∀ x : Fin n, (x.val, (f x).val) ∈ mapped) ∧
+        dis (matFn DX n) (matFn DY m) f = dist := by
+  have hne : pi ≠ [] := by
+    intro e; subst e
+    have := hpi.length_eq; simp at this
+    exact NeZero.ne n this.symm
+  obtain ⟨⟨mapped, dist⟩, hr⟩ := constructMapping_ok DX DY y0 hne
+  obtain ⟨h1, f, h2, _, h3⟩ := constructMapping_exact hX hY hpi hy0 hr
+  exact ⟨mapped, dist, hr, h1, f, h2, h3⟩
+
+example : constructMapping P3 C4 [2, 0, 1] 3 = .ok ([(2, 3), (0, 1), (1, 0)], 0) := by decide
+example : ([2, 0, 1] : List ℕ).Perm (List.range 3) := by decide
+
+omit [NeZero n] in
+/-- **`find_ub_of_min_distortion` never goes below the minimum distortion**, for every list of
+    permutations, every list of first images and every goal. -/
+theorem find_ub_of_min_distortion_sound (hX : DistMat DX n) (hY : DistMat DY m)
+    (perms : List (List ℕ)) (y0s : List ℕ) (goal : ℕ)
+    (hperms : ∀ pi ∈ perms, pi.Perm (List.range n)) (hy0s : ∀ y ∈ y0s, y < m)
+    {ub k : ℕ} (h : findUbOfMinDistortion DX DY perms y0s goal = .ok (ub, k)) :
+    minDis (matFn DX n) (matFn DY m) ≤ ub :=
+  findUbOfMinDistortion_sound hX hY perms y0s goal hperms hy0s h
+
+/-- **`find_ub` is sound**: for every list of permutations and first images in either direction
+    (every state of the generator, every sample size) and every `double_lb`, `2·mGH ≤ find_ub`. -/
+theorem find_ub_sound (hX : DistMat DX n) (hY : DistMat DY m)
+    (pXY : List (List ℕ)) (yXY : List ℕ) (pYX : List (List ℕ)) (yYX : List ℕ) (lb : ℕ)
+    (hpXY : ∀ pi ∈ pXY, pi.Perm (List.range n)) (hyXY : ∀ y ∈ yXY, y < m)
+    (hpYX : ∀ pi ∈ pYX, pi.Perm (List.range m)) (hyYX : ∀ y ∈ yYX, y < n)
+    {ub k1 k2 : ℕ} (h : findUb DX DY pXY yXY pYX yYX lb = .ok (ub, k1, k2)) :
+    mGH2 (matFn DX n) (matFn DY m) ≤ ub := by
+  unfold findUb at h
+  rcases h1 : findUbOfMinDistortion DX DY pXY yXY lb with e | ⟨u1, c1⟩
+  · simp [h1] at h
+  · rcases h2 : findUbOfMinDistortion DY DX pYX yYX u1 with e | ⟨u2, c2⟩
+    · simp [h1, h2] at h
+    · simp only [h1, h2, Except.ok.injEq, Prod.mk.injEq] at h
+      obtain ⟨rfl, _, _⟩ := h
+      have a1 := findUbOfMinDistortion_sound hX hY pXY yXY lb hpXY hyXY h1
+      have a2 := findUbOfMinDistortion_sound hY hX pYX yYX u1 hpYX hyYX h2
+      exact max_le_max a1 a2
+
+/-- the sampling never fails when each direction has at least one permutation (the sample size
+    `ceil(|X|^a · log(|X|+1)^b)` is at least 1) and a first image for each -/
+theorem find_ub_total (pXY : List (List ℕ)) (yXY : List ℕ) (pYX : List (List ℕ)) (yYX : List ℕ)
+    (lb : ℕ) (h1 : pXY ≠ []) (h2 : pYX ≠ []) (hp1 : ∀ pi ∈ pXY, pi ≠ []) (hp2 : ∀ pi ∈ pYX, pi ≠ [])
+    (hl1 : pXY.length ≤ yXY.length) (hl2 : pYX.length ≤ yYX.length) :
+    ∃ r, findUb DX DY pXY yXY pYX yYX lb = .ok r := by
+  unfold findUb findUbOfMinDistortion
+  obtain ⟨r1, e1⟩ := ubLoop_ok DX DY lb pXY yXY none 0 (Or.inl h1) hp1 hl1
+  obtain ⟨r2, e2⟩ := ubLoop_ok DY DX r1.1 pYX yYX none 0 (Or.inl h2) hp2 hl2
+  exact ⟨_, by rw [e1]; simp only; rw [e2]⟩
+
+example : findUb P3 C4 [[2, 0, 1], [0, 1, 2]] [3, 0] [[3, 1, 0, 2]] [1] 1 = .ok (1, 1, 1) := by decide
+
+/-! ### the bracket -/
+
+/-- what `estimate` returns: `(0.5 * double_lb, 0.5 * double_ub)` -/
+def estimateHalf (kmX kmY : ℕ → ℕ → ℤ) (DX DY : Mat) (pXY : List (List ℕ)) (yXY : List ℕ)
+    (pYX : List (List ℕ)) (yYX : List ℕ) : Except Err (ℚ × ℚ) :=
+  (estimate kmX kmY DX DY pXY yXY pYX yYX).map fun r => ((r.1 : ℚ) / 2, (r.2 : ℚ) / 2)
+
+/-- the full bracket statement -/
+def Brackets : Prop :=
+  ∀ {DX DY : Mat} {n m : ℕ} [NeZero n] [NeZero m], DistMat DX n → DistMat DY m →
+    ∀ (kmX kmY : ℕ → ℕ → ℤ) (pXY : List (List ℕ)) (yXY : List ℕ) (pYX : List (List ℕ)) (yYX : List ℕ),
+      (∀ pi ∈ pXY, pi.Perm (List.range n)) → (∀ y ∈ yXY, y < m) →
+      (∀ pi ∈ pYX, pi.Perm (List.range m)) → (∀ y ∈ yYX, y < n) →
+      ∀ lo hi : ℚ, estimateHalf kmX kmY DX DY pXY yXY pYX yYX = .ok (lo, hi) →
+        lo ≤ mGH (matFn DX n) (matFn DY m) ∧ mGH (matFn DX n) (matFn DY m) ≤ hi ∧
+          ∃ a b : ℕ, lo = (a : ℚ) / 2 ∧ hi = (b : ℚ) / 2
+
+/-- **upper half of the bracket** (unconditional): `mGH ≤ upper`, both estimates in `½ℕ`. -/
+theorem brackets_upper (hX : DistMat DX n) (hY : DistMat DY m)
+    (kmX kmY : ℕ → ℕ → ℤ) (pXY : List (List ℕ)) (yXY : List ℕ) (pYX : List (List ℕ)) (yYX : List ℕ)
+    (hpXY : ∀ pi ∈ pXY, pi.Perm (List.range n)) (hyXY : ∀ y ∈ yXY, y < m)
+    (hpYX : ∀ pi ∈ pYX, pi.Perm (List.range m)) (hyYX : ∀ y ∈ yYX, y < n)
+    {lo hi : ℚ} (h : estimateHalf kmX kmY DX DY pXY yXY pYX yYX = .ok (lo, hi)) :
+    mGH (matFn DX n) (matFn DY m) ≤ hi ∧ lo = ((findLb kmX kmY DX DY : ℕ) : ℚ) / 2 ∧
+      ∃ b : ℕ, hi = (b : ℚ) / 2 := by
+  unfold estimateHalf estimate at h
+  rcases hu : findUb DX DY pXY yXY pYX yYX (findLb kmX kmY DX DY) with e | ⟨ub, k1, k2⟩
+  · simp [hu, Except.map] at h
+  · simp only [hu, Except.map, Except.ok.injEq, Prod.mk.injEq] at h
+    obtain ⟨rfl, rfl⟩ := h
+    have := find_ub_sound hX hY pXY yXY pYX yYX _ hpXY hyXY hpYX hyYX hu
+    refine ⟨?_, rfl, ub, rfl⟩
+    unfold mGH
+    have : (mGH2 (matFn DX n) (matFn DY m) : ℚ) ≤ (ub : ℚ) := by exact_mod_cast this
+    linarith
+
+/-- **the bracket** `lower ≤ mGH ≤ upper`, both in `½ℕ`, given [P2] `GreedyComplete`. -/
+theorem brackets_partial (hG : GreedyComplete) : Brackets := by
+  intro DX DY n m _ _ hX hY kmX kmY pXY yXY pYX yYX hpXY hyXY hpYX hyYX lo hi h
+  obtain ⟨h1, h2, b, h3⟩ := brackets_upper hX hY kmX kmY pXY yXY pYX yYX hpXY hyXY hpYX hyYX h
+  refine ⟨?_, h1, _, b, h2, h3⟩
+  rw [h2]
+  unfold mGH
+  have : ((findLb kmX kmY DX DY : ℕ) : ℚ) ≤ (mGH2 (matFn DX n) (matFn DY m) : ℚ) := by
+    exact_mod_cast find_lb_sound_partial hG hX hY kmX kmY
+  linarith
+
+example : estimate (wrapMul 8) (wrapMul 8) P3 C4 [[2, 0, 1]] [3] [[3, 1, 0, 2]] [1] = .ok (1, 1) := by
+  decide
+
+/-! ### isomorphic graphs -/
+
+/-- isometric spaces are at distance 0 -/
+theorem mGH2_eq_zero_of_isometric (h : Isometric (matFn DX n) (matFn DY m)) :
+    mGH2 (matFn DX n) (matFn DY m) = 0 := by
+  obtain ⟨e, he⟩ := h
+  have h1 : minDis (matFn DX n) (matFn DY m) = 0 := by
+    apply Nat.le_zero.1
+    refine le_trans (minDis_le _ _ e) ?_
+    rw [dis_le_iff]; intro a b; rw [he]; simp [Nat.dist_self]
+  have h2 : minDis (matFn DY m) (matFn DX n) = 0 := by
+    apply Nat.le_zero.1
+    refine le_trans (minDis_le _ _ e.symm) ?_
+    rw [dis_le_iff]; intro a b
+    have := he (e.symm a) (e.symm b)
+    simp only [Equiv.apply_symm_apply] at this
+    rw [this]; simp [Nat.dist_self]
+  simp [mGH2, h1, h2]
+
+/-- the full statement: isomorphic graphs receive lower bound 0 -/
+def IsoLbZero : Prop :=
+  ∀ {DX DY : Mat} {n m : ℕ} [NeZero n] [NeZero m], DistMat DX n → DistMat DY m →
+    Isometric (matFn DX n) (matFn DY m) → ∀ kmX kmY : ℕ → ℕ → ℤ, findLb kmX kmY DX DY = 0
+
+/-- **isomorphic graphs always receive lower bound 0**, given [P2] `GreedyComplete`. -/
+theorem iso_lb_zero_partial (hG : GreedyComplete) : IsoLbZero := by
+  intro DX DY n m _ _ hX hY hiso kmX kmY
+  have := find_lb_sound_partial hG hX hY kmX kmY
+  rw [mGH2_eq_zero_of_isometric hiso] at this
+  exact Nat.le_zero.1 this
+
+end
 
 end PersimVerif.C05
